@@ -46,8 +46,20 @@ def mutants(v, limit=12):
                     tgt.append(copy.deepcopy(tgt[0]))
         except Exception:
             continue
-        res.append(json.dumps(c, ensure_ascii=False))
+        res.append(json.dumps(ones(c), ensure_ascii=False))
     return list(dict.fromkeys(res))[:limit]
+
+
+def ones(x):
+    """the property restricts numeric leaves to values every numeric Rust type can hold: a mutation may move a sample's number into an arm of
+    another numeric type (TypeScript has one `number`), so every number of a mutant is replaced by 1"""
+    if isinstance(x, bool) or x is None or isinstance(x, str):
+        return x
+    if isinstance(x, (int, float)):
+        return 1
+    if isinstance(x, list):
+        return [ones(y) for y in x]
+    return {k: ones(v) for k, v in x.items()}
 
 
 def closure_text(prog, ty):
